@@ -72,6 +72,20 @@ Theorem C15_service_complete_with_fix :
 Proof. exact consulted_service_reachable_fixed. Qed.
 Print Assumptions C15_service_complete_with_fix.
 
+(* The App Protect DoS chain spelled out: an APDosPolicy / APDosLogConf that GetValidDosEx consults behind a
+   DosProtectedResource (named by an Ingress annotation, VirtualServer spec.dos, a route or a subroute) is mapped back
+   through GetDosProtectedThatReferencedDosPolicy / ...DosLogConf and FindResourcesForAppProtectDosProtected, and every
+   add, delete and update the handler lets through -- to a valid or to an INVALID version -- reaches the resource. *)
+Theorem C15_dos_chain_events :
+  forall e cl r p k ky ns name o relevant,
+    k = KDosPolicy \/ k = KDosLogConf ->
+    cluster_wf cl -> resource_wf r -> valid_name ns -> valid_name name ->
+    In (p, (k, ky)) (consulted e cl r) -> ky = key ns name ->
+    (o = Update -> relevant = true) ->
+    event_reaches e cl k o relevant ns name r = true.
+Proof. exact dos_chain_events. Qed.
+Print Assumptions C15_dos_chain_events.
+
 (* Any number of served resources: whatever else the Configuration serves (other kinds with the same
    namespace and name, other hosts), each resource that consults the object is in the set the reverse
    path returns; and that set is the union over the parts of the served list. *)
